@@ -67,3 +67,18 @@ package PVM
 //@     invariant yielded: (origin.Exception == nil ==> copiedException == nil) && (origin.Exception != nil ==> copiedException != nil && fresh(copiedException) && *copiedException == *origin.Exception)
 //@     invariant accounts: fresh(copiedPartialState.ServiceAccounts) && allkeys(sid, copiedPartialState.ServiceAccounts, c10_own(copiedPartialState.ServiceAccounts[sid]))
 //@     invariant provided: allkeys(h, copiedServiceBlobs, fresh(copiedServiceBlobs[h].Blob) || len(copiedServiceBlobs[h].Blob) == 0)
+
+// host call 17 (checkpoint): y' = copy of x, omega7 = remaining gas, x itself untouched, nothing else written
+//@ func checkpoint
+//@   props C10 C04 C07
+//@   requires nonnil: input.VM != nil && input.VM.Gas != nil && input.VM.Registers != nil && input.Addition.ResultContextX.StorageKeyVal != nil
+//@   requires valid: forall(i, 0, len(*input.Addition.ResultContextX.StorageKeyVal), allocated((*input.Addition.ResultContextX.StorageKeyVal)[i].Value))
+//@   requires sane: *input.VM.Gas > -9223372036854775000
+//@   ensures charged: *input.VM.Gas == old(*input.VM.Gas) - 10
+//@   ensures oog: old(*input.VM.Gas) < 10 ==> output.ExitReason == ExitOOG && frame_only(*input.VM.Gas)
+//@   ensures ok: old(*input.VM.Gas) >= 10 ==> output.ExitReason == ExitContinue && input.VM.Registers[7] == uint64(*input.VM.Gas) && frame_only(*input.VM.Gas, input.VM.Registers[7])
+//@   ensures regular_untouched: old(*input.VM.Gas) >= 10 ==> output.Addition.ResultContextX == input.Addition.ResultContextX
+//@   ensures copy_ids: old(*input.VM.Gas) >= 10 ==> output.Addition.ResultContextY.ServiceID == input.Addition.ResultContextX.ServiceID && output.Addition.ResultContextY.ImportServiceID == input.Addition.ResultContextX.ImportServiceID
+//@   ensures copy_transfers: old(*input.VM.Gas) >= 10 ==> len(output.Addition.ResultContextY.DeferredTransfers) == len(input.Addition.ResultContextX.DeferredTransfers) && forall(i, 0, len(input.Addition.ResultContextX.DeferredTransfers), output.Addition.ResultContextY.DeferredTransfers[i] == input.Addition.ResultContextX.DeferredTransfers[i])
+//@   ensures copy_owned: old(*input.VM.Gas) >= 10 ==> fresh(output.Addition.ResultContextY.PartialState.ServiceAccounts) && allkeys(sid, output.Addition.ResultContextY.PartialState.ServiceAccounts, c10_own(output.Addition.ResultContextY.PartialState.ServiceAccounts[sid])) && fresh(output.Addition.ResultContextY.ServiceBlobs) && fresh(output.Addition.ResultContextY.StorageKeyVal)
+//@   assigns *input.VM.Gas, input.VM.Registers[7]
